@@ -163,3 +163,22 @@ package atree
 //@   option assume-nonnil-params true
 //@   modifies heap
 
+
+//@ # ---- content view of the compact-map decoder (C06, C07, C08): the digests of the decoded map are a private copy of the shared ones
+//@ # (same values, own backing store), every element is a fresh single element sized 1 + key + value, the list and the slab report
+//@ # prefix + sum of (digest + element)
+//@ func DecodeInlinedCompactMapStorable@content(dec, decodeStorable, parentSlabID, inlinedExtraData) (st, err)  serves C06 C07 C08
+//@   option assume-nonnil-params true
+//@   assume (forall cm *compactMapExtraData :: cm != nil ==> cm.mapExtraData != nil && cm.mapExtraData.TypeInfo != nil && len(cm.keys) == len(cm.hkeys) &&
+//@        (forall k :: 0 <= k && k < len(cm.keys) ==> cm.keys[k] != nil)) because "shape of decoded compact-map extra data (established by its decoder)"
+//@   exit[C07 C08] err == nil ==> origin(hkeys) != origin(extraData.hkeys) && len(hkeys) == len(extraData.hkeys) && (forall k :: 0 <= k && k < len(hkeys) ==> hkeys[k] == extraData.hkeys[k])
+//@   exit[C07 C08] err == nil ==> elements.hkeys == hkeys && elements.elems == elems && len(elems) == len(extraData.keys) && origin(elems) != origin(extraData.keys)
+//@   exit[C06] err == nil ==> elements.size == 8 + 8 * len(elems) + sum(esz, elems, len(elems))
+//@   ensures[C06 C07] err == nil ==> st != nil && is(st, *MapDataSlab) && fresh(st) && as(st, *MapDataSlab).inlined && as(st, *MapDataSlab).elements != nil &&
+//@        is(as(st, *MapDataSlab).elements, *hkeyElements) && as(st, *MapDataSlab).header.size == inlinedMapDataSlabPrefixSize + elsSize(as(st, *MapDataSlab).elements) &&
+//@        as(st, *MapDataSlab).header.slabID.address == parentSlabID.address && as(st, *MapDataSlab).extraData != nil && fresh(as(st, *MapDataSlab).extraData)
+//@   ensures err != nil ==> st == nil
+//@   modifies heap
+//@   loop 1: invariant 0 <= i && i <= len(elems) && len(elems) == len(extraData.keys) && origin(hkeys) != origin(extraData.hkeys) && len(hkeys) == len(extraData.hkeys) &&
+//@        (forall k :: 0 <= k && k < len(hkeys) ==> hkeys[k] == extraData.hkeys[k]) && origin(elems) != origin(extraData.keys)
+//@   loop 1: invariant elementsSize == 8 + 8 * i + sum(esz, elems, i)
